@@ -18,7 +18,7 @@ MARKER = b"8=FIX."
 def RULE(tier):
     return (
         "Streams of valid frames fabricated by the reference encoder (application messages 1 B..6 KB, "
-        "Heartbeat, TestRequest, in sequence after a Logon; values with '=', '|', '10=000', blanks at either end and quoted frame starts '8=FIX.4.2') fed to the real socket_read_task of a real "
+        "Heartbeat, TestRequest, in sequence after a Logon; values with '=', '|', '10=000', blanks at either end and quoted frame starts '8=FIX.4.2'; one stream with zero-padded fixed-width BodyLength) fed to the real socket_read_task of a real "
         "acceptor endpoint under: EVERY 1-cut partition, "
         + ("EVERY 2-cut partition" if tier == "thorough" else "every 2-cut partition with both cuts within 8 bytes of a frame start / BodyLength / CheckSum field")
         + " of the small streams, the all-1-byte partition, Hypothesis-drawn multi-cut partitions of generated "
@@ -54,7 +54,13 @@ def small_streams():
         ref_msg("D", "CLI", "SRV", 2, [(11, "q-1"), (58, "unexpected 8=FIX.4.2 in header "), (55, "A B ")]),
         ref_msg("D", "CLI", "SRV", 3, [(58, "8=FIX."), (11, "q-2")]),
     ]
-    return {"A3": a, "B2": b, "C1": c, "D2": d}
+    # a counterparty that writes BodyLength zero-padded to a fixed width (a legal int)
+    e = [
+        ref_msg("D", "CLI", "SRV", 2, [(11, "pad-1"), (55, "MSFT")], pad=6),
+        ref_msg("0", "CLI", "SRV", 3, pad=6),
+        ref_msg("D", "CLI", "SRV", 4, [(11, "pad-2"), (58, "tail")], pad=4),
+    ]
+    return {"A3": a, "B2": b, "C1": c, "D2": d, "E3": e}
 
 
 class Bench:
@@ -417,12 +423,14 @@ def plan(tier, seed):
         jobs += [("cuts2", {"name": "A3", "part": i, "parts": 4, "full": False}) for i in range(4)]
         jobs += [("cuts2", {"name": "B2", "part": 0, "parts": 1, "full": False})]
         jobs += [("cuts2", {"name": "D2", "part": 0, "parts": 1, "full": False})]
+        jobs += [("cuts2", {"name": "E3", "part": 0, "parts": 1, "full": False})]
         jobs += [("hyp_shard", {"n": 400, "seed": derive_seed(seed, PROPERTY, i)}) for i in range(4)]
     else:
         jobs += [("cuts2", {"name": "A3", "part": i, "parts": 10, "full": True}) for i in range(10)]
         jobs += [("cuts2", {"name": "B2", "part": i, "parts": 4, "full": True}) for i in range(4)]
         jobs += [("cuts2", {"name": "C1", "part": 0, "parts": 1, "full": True})]
         jobs += [("cuts2", {"name": "D2", "part": i, "parts": 4, "full": True}) for i in range(4)]
+        jobs += [("cuts2", {"name": "E3", "part": i, "parts": 4, "full": True}) for i in range(4)]
         jobs += [("hyp_shard", {"n": 20000, "seed": derive_seed(seed, PROPERTY, i)}) for i in range(12)]
     return jobs
 
